@@ -120,7 +120,14 @@ pub fn build_graph<IntT: for<'a> UInt<'a>>(
             }
         });
 
-    let all_kmers: KmerGraph<IntT> = all_kmers.into_iter().collect();
+    // neighbours in a fixed order: the insertion order depends on thread scheduling
+    let all_kmers: KmerGraph<IntT> = all_kmers
+        .into_iter()
+        .map(|(kmer, mut next)| {
+            next.sort_unstable();
+            (kmer, next)
+        })
+        .collect();
     let kmer_samples: KmerSamples<IntT> = kmer_samples.into_iter().collect();
 
     log::info!("{} nodes", all_kmers.len());
